@@ -1,11 +1,16 @@
 """C08 - restricted reads equal full read + subset, for VCF and PGEN alike.
 
 Relations
-  read   : one content materialised as .vcf.gz+tbi or .bcf+csi (pysam) and .pgen/.pvar/.psam
-           (pgenlib, plain text), one query (region / samples / ids / max_variants /
-           chunk size); haptools' read(), read(restricted) and __iter__(restricted)
-           observed for both formats
+  read   : one content materialised as .vcf.gz+tbi or .bcf+csi - or, un-indexed, as .vcf / .vcf.gz /
+           .bcf whose records need not be sorted - (pysam) and as .pgen/.pvar/.psam (pgenlib, plain
+           text; the PVAR in the same, possibly unsorted, record order), one query (region / samples /
+           ids / max_variants / chunk size); haptools' read(), read(restricted) and
+           __iter__(restricted) observed for both formats (the VCF reader gets the query without its
+           region when the file has no index)
   subset : Genotypes.subset(samples, variants) on an in-memory object
+  seq    : one file (VCF/BCF or PGEN), read(), read(restricted), full.subset(what the restricted read
+           returned), then 1-4 subset() calls on the loaded object (in place / copy and continue with
+           the copy / copy and stay), the object dumped before every call
 """
 import logging
 import os
@@ -24,12 +29,20 @@ COQ_MODULES = ["C08_Check", "C08_Proofs", "C08_Proofs2"]
 PROPERTY_MODULE = "C08_Property"
 ALLOWED_AXIOMS = []
 RULE = (
-    "read: contents of 1-5 samples x 0-8 variants on 1-3 contigs (sorted, equal positions and multi-base REF alleles "
-    "occur), queries mixing region forms 'c', 'c:a-b', 'c:a-' with a/b on, between (+-1) and outside variant positions "
-    "and absent contigs, sample subsets with unknown names, ID subsets with unknown IDs / no match / the empty set, "
-    "max_variants 0..p+2, PGEN chunk sizes None,1..p+1. Non-trivial = the query restricts something (drops at least one "
-    "row or column, or matches nothing). subset: objects of 1-5 x 0-6 with requested tuples that permute, repeat and "
-    "contain unknown names. Distinct = distinct canonical JSON."
+    "read: contents of 1-5 samples x 0-8 variants on 1-3 contigs (equal positions and multi-base REF alleles occur); "
+    "file order of the records: coordinate-sorted (55%), positions in any order within a contig block, sorted runs "
+    "re-arranged so that a contig occurs in several blocks, or fully shuffled - the PVAR always has that order, the "
+    "VCF/BCF is indexed only when the order allows it (and left un-indexed now and then when it does; then the VCF "
+    "reader gets the query without its region); queries mixing region forms 'c', 'c:a-b', 'c:a-' with a/b on, between "
+    "(+-1) and outside variant positions and absent contigs, sample subsets with unknown names, ID subsets with unknown "
+    "IDs / no match / the empty set, max_variants 0..p+2, PGEN chunk sizes None,1..p+1. Non-trivial = the query "
+    "restricts something (drops at least one row or column, or matches nothing). subset: objects of 1-5 x 0-6 with "
+    "requested tuples that permute, repeat and contain unknown names. seq: contents as for read (<= 6 variants), the "
+    "read unrestricted (45%) or restricted by a query as above, then 1-4 subset() calls whose samples=/variants= are "
+    "drawn from the names the object holds at that point: all of them re-ordered, a part in any order, with names "
+    "that were dropped by an earlier call or never existed, a name twice, the empty tuple, None; each call in place "
+    "(50%) or copying, the caller continuing with the copy or not. Non-trivial = at least two calls were made or the "
+    "read was restricted. Distinct = distinct canonical JSON."
 )
 TRUSTED = [
     "htslib region queries return, in file order, the records whose [pos, pos+len(REF)-1] overlaps the region (model "
@@ -45,23 +58,43 @@ ASSUMPTIONS = [
     "by holds; cross-format equality of region reads is checked only when every REF is one base long or the region is a "
     "whole contig",
     "a sample restriction that selects no sample at all is not checked by holds (cyvcf2 -> AttributeError, pgenlib -> "
-    "RuntimeError; compared by agree only)",
+    "RuntimeError; compared by agree only) unless STRICT_EMPTY_SAMPLE_SELECTION is set",
+    "a region is only given to the VCF reader when the file has an index (htslib needs one; an un-indexed or unsorted "
+    "file is read with the sample / ID / max_variants restrictions only); the PGEN reader gets every query",
+    "seq: a subset() call made on the object of a VCF read that matched nothing (array of shape (0, 0, 0) beside the "
+    "samples found) is not checked by holds (IndexError; compared by agree only) unless "
+    "STRICT_SUBSET_AFTER_EMPTY_READ is set; calls made on an object with duplicate names (left by a request that "
+    "repeats a name) are outside the domain (ValueError, compared by agree)",
 ]
 
 
-# Switch for the integrator: a sample restriction that selects no sample at all makes cyvcf2 raise
-# AttributeError ('NoneType' object has no attribute 'array') and pgenlib RuntimeError ("Empty sample_subset
-# is not currently permitted"). False = holds does not check such queries (agree compares the exception
-# kinds); True = holds demands "empty result + warning, no exception"; the failures then carry
-# "no-sample-selected=True" in their signature (candidate known finding).
+# Switch for the integrator: a sample restriction that selects no sample at all (the empty set, or only unknown
+# names) makes cyvcf2 raise AttributeError ('NoneType' object has no attribute 'array', at the first record) and
+# pgenlib RuntimeError ("Empty sample_subset is not currently permitted."), from read() and from __iter__() of
+# GenotypesVCF resp. GenotypesPLINK - although the property says "a restriction that matches nothing yields an
+# empty result with a warning, never a crash".  False (default) = the tree as it is: the model raises the same
+# kinds (agree compares them) and holds does not look at such queries.  True = after
+# fixes/C08_empty_sample_selection.patch: the model is the repaired reader (C08_Model.vcf_read_x / pgen_read_x
+# with flag true: the selected variants, no sample, VCF array (0, 0, 0), PGEN array (0, p, 3); theorems
+# C08_vcf_read_x_spec / C08_pgen_read_x_spec hold without the hypothesis selected_samples <> []) and holds
+# demands "no sample, no call, a warning, no exception".  Flipping it on the unrepaired tree yields
+#   VIOLATION property=C08 ...   signature "read: vcf read raised AttributeError; vcf iter raised AttributeError;
+#   pgen read raised RuntimeError; pgen iter raised RuntimeError; ... no-sample-selected=True"
+# (relation read) and "seq[vcf|pgen]: read raised ...; no-sample-selected=True ..." (relation seq): the specific
+# signature a known-finding entry can match on.  Also settable with HV_C08_STRICT_EMPTY_SAMPLE_SELECTION=1.
 STRICT_EMPTY_SAMPLE_SELECTION = os.environ.get("HV_C08_STRICT_EMPTY_SAMPLE_SELECTION", "0") == "1"
 
 # Switch for the integrator: Genotypes.read leaves an array of shape (0, 0, 0) beside the samples it found when
-# nothing matched (VCF/BCF); subset(samples=...) on that object raises IndexError as soon as one requested
-# sample is known (same for variants= once the object lists variants).  False = holds skips subset() calls made
-# on such an object (agree compares the exception kind); True = holds demands the requested samples/variants
-# there too (model = the tree with fixes/C08_subset_after_empty_read.patch); the failures carry
-# "subset-on-array-without-cells=True" in their signature.
+# nothing matched (VCF/BCF; also a file without records); subset(samples=...) on that object raises
+# "IndexError: index 0 is out of bounds for axis 0 with size 0" as soon as one requested sample is known (same
+# for variants= once the object lists variants), e.g. g.read(variants={"nope"}); g.subset(samples=("a",)).
+# False (default) = the tree as it is: the model (C08_Model.subset_impl false) raises IndexError there, agree
+# compares the kind, holds skips subset() calls made on such an object.  True = after
+# fixes/C08_subset_after_empty_read.patch: model subset_impl true (never raises, theorem C08_subset_impl_total),
+# holds demands the requested samples/variants there too.  Flipping it on the unrepaired tree yields
+#   VIOLATION property=C08 ...   signature "seq[vcf]: ... subset ... raised IndexError (object of a read that
+#   matched nothing: array without cells); ... subset-on-array-without-cells=True".
+# Also settable with HV_C08_STRICT_SUBSET_AFTER_EMPTY_READ=1.
 STRICT_SUBSET_AFTER_EMPTY_READ = os.environ.get("HV_C08_STRICT_SUBSET_AFTER_EMPTY_READ", "0") == "1"
 
 # ----------------------------------------------------------------------------
@@ -988,18 +1021,30 @@ class Seq(Relation):
 RELATIONS = [Read(), Subset(), Seq()]
 
 LEVEL_TEXT = (
-    "Coq theorems, for every file content with unique IDs and every query (region, sample set, ID set, max_variants, chunk "
-    "size), about a Gallina model of Genotypes.read/_iterate/__iter__/subset and GenotypesPLINK.read/read_variants/"
-    "_iterate_variants/__iter__: the restricted read equals the full read filtered in file order, an empty match is an "
-    "empty result and never an error, the iterator yields the records of the bulk read, max_variants returns a prefix, "
-    "subset returns the requested order. The model is tied to /repo on every run: each generated content is written as "
-    ".vcf.gz+tbi and .pgen with pysam/pgenlib directly and haptools' full, restricted and streaming reads of both files are "
-    "compared with the model and checked against the property inside Coq."
+    "Coq theorems, for every file content with unique IDs - in any record order, sorted or not - and every query (region, "
+    "sample set, ID set, max_variants, chunk size), about a Gallina model of Genotypes.read/_iterate/__iter__/subset/index "
+    "and GenotypesPLINK.read/read_variants/_iterate_variants/__iter__: the restricted read equals the full read filtered in "
+    "file order and IS the model's subset() of the full read by the selected samples and IDs in file order "
+    "(C08_read_eq_full_then_subset_vcf/_pgen), an empty match is an empty result and never an error, the iterator yields "
+    "the records of the bulk read, max_variants returns a prefix, both formats are the same function of the content "
+    "(C08_vcf_pgen_same_content), subset returns the requested order, and any sequence of subset() calls equals one "
+    "subset() of the original object by the names the sequence leaves (C08_subset_seq_one; a repeated name makes the next "
+    "call raise, C08_subset_after_repeats). The model is tied to /repo on every run: each generated content is written as "
+    "VCF/BCF (indexed when its order allows) and as .pgen with pysam/pgenlib directly; haptools' full, restricted and "
+    "streaming reads of both files, read()+subset(), and sequences of in-place and copying subset() calls on the loaded "
+    "object are compared with the model and checked against the property inside Coq."
 )
 LEVEL_NOTE = (
-    "Partial: htslib's region query and pgenlib's by-index reads are contracts exercised on every run, not theorems; "
-    "cross-format equality (vcf_pgen_same_content) is established by the correspondence run, with region bounds compared "
-    "only when no REF allele is longer than one base or the region is a whole contig. A sample restriction that selects no "
-    "sample raises inside cyvcf2/pgenlib and is compared by agree only."
+    "Partial: htslib's region query and pgenlib's by-index reads are contracts exercised on every run, not theorems. "
+    "Cross-format equality is a theorem (C08_vcf_pgen_same_content: same samples, variants, allele indices, missing calls "
+    "and phase of heterozygous calls for every pgenlib meeting the C07 contract) under the hypothesis that the region has "
+    "no start or every REF allele is one base long (htslib selects by REF overlap, the PGEN reader by position); the run "
+    "compares region reads across formats under the same condition and only when the VCF has an index. Two defects of "
+    "/repo found by this check are reported behind switches that default to the tree as it is (model = current behaviour, "
+    "holds does not look): a sample restriction that selects nobody raises inside cyvcf2/pgenlib "
+    "(STRICT_EMPTY_SAMPLE_SELECTION, fixes/C08_empty_sample_selection.patch), and subset() on the object of a VCF read "
+    "that matched nothing raises IndexError (STRICT_SUBSET_AFTER_EMPTY_READ, fixes/C08_subset_after_empty_read.patch); the "
+    "theorems about the unrepaired readers therefore assume selected_samples <> [] (C08_vcf_read_x_spec / "
+    "C08_pgen_read_x_spec state the repaired readers without it)."
 )
 TECHNIQUE = "Coq proof by induction on record lists + vm_compute-evaluated correspondence against haptools on pysam/pgenlib-written files"
